@@ -24,6 +24,7 @@ git apply "$src/patch.diff" || { echo APPLY-FAILED; }
 go build ./... || echo BUILD-FAILED
 echo "== full suite with change (must pass)"
 go test -vet=off -count=1 -timeout 25m ./... > /tmp/confirm_$name.suite 2>&1; suite=$?
+grep -E "^(--- FAIL|FAIL|panic)" /tmp/confirm_$name.suite | head -10
 tail -4 /tmp/confirm_$name.suite
 echo "== demo with change (must fail)"
 cp "$src/demo_test.go" $pkgdir/zz_demo_test.go
